@@ -11,7 +11,7 @@ ASSUMPTIONS = ["theorems are about the Lean translation of estimator.pyx; the co
 
 
 def correspondence(ctx):
-    return kernels.kernel_correspondence(ctx, VKINDS, ctx.scale(25, 300), scheds=("seq", "mix"), big=not ctx.quick)
+    return kernels.kernel_correspondence(ctx, VKINDS, ctx.scale(25, 120), scheds=("seq", "mix"), big=not ctx.quick)
 
 
 def close(a, b, tol=1e-10):
